@@ -510,10 +510,14 @@ func main() {
 	if run.Replay != "" {
 		b, _ := os.ReadFile(run.Replay)
 		var f struct {
+			Key    string
 			Detail struct{ A, B, Command string }
 		}
 		json.Unmarshal(b, &f)
 		fmt.Printf("replay: %s\n", b)
+		if strings.HasPrefix(f.Key, "backend-matcher-") {
+			backendPart(true) // the whole part: a few seconds
+		}
 		if f.Detail.Command != "" {
 			w := newWorker()
 			resps, _, err := w.d.Do(f.Detail.Command)
@@ -673,7 +677,9 @@ func main() {
 	run.Set("search_key_alphabet", int64(len(ks)))
 	run.NontrivialN(int64(len(seqs)))
 	run.Sample("search-command", "s1 SEARCH SMALLER 500 LARGER 50 NEW")
-	run.Rule = "A: every ordered pair (leaf or operand, operand) of criteria built from 32 basic leaves (each field at 2 values, incl. unset), their NOTs, 90 ORs and all 2-field conjunction records; B: all triples of basic leaves via And(And(a,b),c); oracle: independent matcher over a universe of messages (product of seq, uid, internal day, sent day/absent, size, flag sets, header/body variants) — And must match exactly the intersection and must not mutate its operand. C: every sequence of <= 3 SEARCH keys from a 40-key alphabet (thorough: also every sequence of 4 keys over 20 representative keys, judged on a thinned universe) sent to a real connection; the criteria handed to the backend must select exactly the messages satisfying every key. non-trivial = pairs whose intersection differs from both operands + distinct SEARCH commands"
+	// D. the in-memory backend's matcher on combined criteria
+	backendPart(run.Thorough())
+	run.Rule = "A: every ordered pair (leaf or operand, operand) of criteria built from 32 basic leaves (each field at 2 values, incl. unset), their NOTs, 90 ORs and all 2-field conjunction records; B: all triples of basic leaves via And(And(a,b),c); oracle: independent matcher over a universe of messages (product of seq, uid, internal day, sent day/absent, size, flag sets, header/body variants) — And must match exactly the intersection and must not mutate its operand. C: every sequence of <= 3 SEARCH keys from a 40-key alphabet (thorough: also every sequence of 4 keys over 20 representative keys, judged on a thinned universe) sent to a real connection; the criteria handed to the backend must select exactly the messages satisfying every key. D: a real imapmemserver mailbox holding 192 (thorough: 384) messages (internal day x sent day/absent x 2 sizes x 4 flag sets x 4 header/body variants; quick: half of the last product); 26 leaves (every field message.search looks at, 2 values each); criteria = leaf, NOT a, and for all ordered pairs And(a,b), And(a,NOT b), NOT And(a,b), OR a b, NOT OR a b, And(NOT a, NOT b), and for triples And(a, OR b c), OR a And(b,c) (quick: a and c = one leaf per field; thorough: all, plus And(NOT a, OR b c)); UserSession.Search (sequence form; also the UID form for leaf/And/OR) must select exactly what the reference matcher selects. non-trivial = pairs whose intersection differs from both operands + distinct SEARCH commands"
 	run.Exhaustive = true
 	run.Assume("dates are day-granular; ModSeq criteria are compared with empty metadata name/type (intersection = larger mod-sequence)")
 	run.Assume("aliasing between And's result and its operand is not checked (the statement does not speak about it); mutation of the operand by And itself is")
